@@ -99,7 +99,8 @@ def run(run):
             for i in range(12):
                 g = G.Gen(random.Random(rng.random()), G.Opts(unique=True, classes=1, methods=2, stmts=3, depth=1, eol=rng.choice(["\n", "\r\n"]),
                                                               indent=["    ", "\t", "\t", "  \t"][i % 4]))
-                rels["a/b%d/F%d.java" % (i % 4, i)] = g.file("P%d_" % i)[0].encode("utf-8")
+                lead = [b"", b"\n\n", b"\r\n\n   \n", b" \t", b"\n"][i % 5]       # files that start with blank lines / blanks
+                rels["a/b%d/F%d.java" % (i % 4, i)] = lead + g.file("P%d_" % i)[0].encode("utf-8") + [b"", b"\n\n\n", b"  "][i % 3]
             for rel, b in rels.items():
                 p = os.path.join(root, rel)
                 os.makedirs(os.path.dirname(p), exist_ok=True)
